@@ -196,8 +196,8 @@ func runC07(w *World, r *Report, tier string) {
 	// R3
 	for _, k := range []string{"xmpp.(*Client).SendIQ", "xmpp.(*Component).SendIQ"} {
 		f := w.Func(k)
-		regs := w.callsIn(f, "xmpp.Router.NewIQResultRoute")
-		sends := w.callsIn(f, "xmpp.Client.Send", "xmpp.Component.Send", "xmpp.Client.SendRaw", "xmpp.Component.SendRaw", "xmpp.Client.sendWithWriter", "xmpp.Component.sendWithWriter")
+		regs := w.callsInH(f, "xmpp.Router.NewIQResultRoute")
+		sends := w.callsInH(f, "xmpp.Client.Send", "xmpp.Component.Send", "xmpp.Client.SendRaw", "xmpp.Component.SendRaw", "xmpp.Client.sendWithWriter", "xmpp.Component.sendWithWriter")
 		if len(regs) != 1 || len(sends) != 1 {
 			r.Undecided("R3", k, w.pos(f.Pos()), fmt.Sprintf("expected one registration and one send, found %d/%d", len(regs), len(sends)))
 			continue
